@@ -107,6 +107,13 @@ theorem rule07_rate_scales_with_pixel_area (exp : K → K) (pow : K → K → K)
   simp only [rule07Rate, Gen.rule07Rate]
   ring
 
+/-- composition: without pattern noise the Rule-07 dark frame is the floor of the rate **as the source computes it** (regenerated
+`Gen.rule07Rate` through `rule07Rate`), at every pixel and for every seed -/
+theorem rule07_no_fpn_is_floor_of_source_rate (exp : K → K) (pow : K → K → K) (lit : Nat → Bool → Nat → K) (fpn : Int → Nat → K)
+    (T cw px f : K) (hf : ¬ 0 < f) (seed : Int) (i : Nat) :
+    rule07Dark Int.floor fpn (rule07Rate exp pow lit T cw px) f seed i = ⌊Gen.rule07Rate exp pow lit T cw px⌋ := by
+  simp [rule07Dark, darkCurrent, hf, rule07Rate]
+
 /-- with pattern noise the frame is `floor(rate · fpn)`: non-negative for a non-negative rate (lognormal draws are positive) -/
 theorem dark_fpn_nonneg (fpn : Int → Nat → K) (hfpn : ∀ s i, 0 < fpn s i) (rate f : K) (hr : 0 ≤ rate) (seed : Int) (i : Nat) :
     0 ≤ darkCurrent Int.floor fpn rate f seed i := by
@@ -251,5 +258,45 @@ theorem cosmic_accumulation_nonneg {K : Type} [Field K] [LinearOrder K] [IsStric
         · simpa using h0
       · exact fun e he => hd e (by simp [he])
   exact key deps 0 (le_refl 0) h
+
+/-- shape and support of a cosmic-ray frame (the accumulation model): the frame is defined at every pixel of the requested shape,
+is exactly 0 at every pixel no ray segment deposits into — in particular the whole frame is 0 when no ray strikes (`nrays = 0`) — and
+adding one more deposit changes only its own pixel, by `flux · distance` -/
+theorem cosmic_frame_support {K : Type} [Field K] (deps : List (Nat × K × K)) (i : Nat) :
+    ((∀ d ∈ deps, d.1 ≠ i) → cosmicFrame deps i = 0) ∧ cosmicFrame ([] : List (Nat × K × K)) i = 0 ∧
+    (∀ d : Nat × K × K, cosmicFrame (deps ++ [d]) i = cosmicFrame deps i + if d.1 = i then d.2.1 * d.2.2 else 0) := by
+  have key : ∀ (l : List (Nat × K × K)) (acc : K), (∀ d ∈ l, d.1 ≠ i) →
+      l.foldl (fun acc d => acc + if d.1 = i then d.2.1 * d.2.2 else 0) acc = acc := by
+    intro l
+    induction l with
+    | nil => intro acc _; rfl
+    | cons d ds ih =>
+      intro acc h
+      simp only [List.foldl_cons]
+      rw [if_neg (h d (by simp)), add_zero]
+      exact ih acc fun e he => h e (by simp [he])
+  refine ⟨fun h => ?_, rfl, fun d => ?_⟩
+  · unfold cosmicFrame sumList; exact key deps 0 h
+  · unfold cosmicFrame sumList; rw [List.foldl_append]; rfl
+
+/-- a cosmic-ray frame is finite in the only sense a real-valued model has: every pixel is bounded by the total charge deposited,
+`0 ≤ frame i ≤ Σ flux · distance` over all deposits (non-negative deposits) -/
+theorem cosmic_frame_bounded {K : Type} [Field K] [LinearOrder K] [IsStrictOrderedRing K]
+    (deps : List (Nat × K × K)) (h : ∀ d ∈ deps, 0 ≤ d.2.1 ∧ 0 ≤ d.2.2) (i : Nat) :
+    0 ≤ cosmicFrame deps i ∧ cosmicFrame deps i ≤ (deps.map fun d => d.2.1 * d.2.2).sum := by
+  refine ⟨cosmic_accumulation_nonneg deps h i, ?_⟩
+  unfold cosmicFrame sumList
+  have key : ∀ (l : List (Nat × K × K)) (acc : K), (∀ d ∈ l, 0 ≤ d.2.1 ∧ 0 ≤ d.2.2) →
+      l.foldl (fun acc d => acc + if d.1 = i then d.2.1 * d.2.2 else 0) acc ≤ acc + (l.map fun d => d.2.1 * d.2.2).sum := by
+    intro l
+    induction l with
+    | nil => intro acc _; simp
+    | cons d ds ih =>
+      intro acc hd
+      simp only [List.foldl_cons, List.map_cons, List.sum_cons]
+      have hnn : 0 ≤ d.2.1 * d.2.2 := mul_nonneg (hd d (by simp)).1 (hd d (by simp)).2
+      refine le_trans (ih _ fun e he => hd e (by simp [he])) ?_
+      split_ifs <;> linarith
+  simpa using key deps 0 h
 
 end Lentil.C18
